@@ -5,7 +5,8 @@ from ..engine import held, inconclusive, violated, crash_outcome
 ID = 'C08'
 LEVEL = 'exploration'
 RULE = ('(a) pairs (plain, coloured) of the same diff - real `git diff --color=never|always` on randomly edited scratch '
-        'repositories and a synthetic colouriser reproducing every layout git emits - under unified/side-by-side option '
+        'repositories, a synthetic colouriser reproducing every layout git emits, and combined (merge) diffs coloured by the '
+        'signs of their prefix columns as git does - under unified/side-by-side option '
         'sets: stdout must be byte-identical; (b) changed lines carrying an arbitrary SGR rendition (moved-line colours, '
         '8/16/256/24-bit, attributes): output cells must carry exactly the input rendition, or the --map-styles target; '
         '(c) raw-styled elements keep their input bytes; distinct = (sub-check, colour layout / rendition, view, option '
@@ -25,6 +26,8 @@ def plan(ctx):
         items.append(('moved', engine.stable_hash((ctx.seed, 'c08m', i))))
     for i in range(ctx.n(900, 12000)):
         items.append(('raw', engine.stable_hash((ctx.seed, 'c08w', i))))
+    for i in range(ctx.n(900, 12000)):
+        items.append(('combined', engine.stable_hash((ctx.seed, 'c08c', i))))
     return items
 
 
@@ -144,7 +147,29 @@ def run_item(item):
         return run_synth(rng)
     if kind == 'moved':
         return run_moved(rng)
+    if kind == 'combined':
+        return run_combined(rng)
     return run_raw(rng)
+
+
+def run_combined(rng):
+    """Combined (merge) diffs as git colours them: a line is red/green by the signs in its prefix columns."""
+    conflict = rng.random() < 0.4
+    nparents = 2 if conflict else rng.choice([2, 2, 3])
+    lines, model, path = corpus.gen_combined(rng, conflict=conflict, nparents=nparents)
+    reset = rng.choice(['m', 'm', '0m'])
+    colored = corpus.git_colorize_combined(lines, nparents, reset)
+    opts, meta, view = options_for_equality(rng)
+    vtag = 'combined:parents%d:%s%s' % (nparents, reset, ':conflict' if conflict else '')
+    sets = {'sub': ['combined'], 'views': [view], 'colour_layouts': [vtag], 'option_classes': meta['classes']}
+    counters = {'pairs': 1, 'input_lines': len(lines), 'combined_pairs': 1}
+    bad = compare(('\n'.join(lines) + '\n').encode(), ('\n'.join(colored) + '\n').encode(), opts, meta, view, 'combined', sets, counters)
+    if bad is not None:
+        return bad
+    o = held(sig=('combined', vtag, view, tuple(sorted(meta['classes'])), len(lines)), nontrivial=any(m[0] == 'line' and m[1].strip() for m in model),
+             counters=counters, sets=sets, sample={'sub': 'combined', 'layout': vtag, 'coloured_head': colored[:8]})
+    o['executions'] = 2
+    return o
 
 
 def run_real(rng):
@@ -350,7 +375,7 @@ def run_raw(rng):
     if res.rc != 0:
         return inconclusive('exit %d: %s' % (res.rc, res.err[:120]))
     out_lines = res.out.decode('utf-8', 'replace').split('\n')
-    out_rows = term.decode(res.out)
+    out_rows = term.decode(res.out, merge=False)
     sets = {'sub': ['raw'], 'raw_element': [which]}
     counters = {'raw_lines_checked': 0}
     # expected raw input lines of that element
@@ -370,7 +395,7 @@ def run_raw(rng):
         elif which == 'commit' and role == 'commit':
             want.append(cl)
     for w in want:
-        wrow = term.decode(w)[0]
+        wrow = term.decode(w, merge=False)[0]
         cells_w = [(c_.ch, c_.fg, c_.bg, c_.attrs) for c_ in wrow.cells]
         if which in ('minus', 'plus', 'zero'):
             cells_w = cells_w[1:]   # marker column removed
